@@ -440,6 +440,8 @@ class ExprMixin:
                 return x
         if l is r:
             return True
+        if isinstance(l, Obj) and isinstance(r, Obj):
+            return False        # two separately created objects (callers add an aliased case where both operands are one object)
         raise OutsideSubset(f"`is` on {l!r}, {r!r}")
 
     def equals(self, l, r):
